@@ -334,6 +334,10 @@ func vxFSRemoveTemp() {
 	panic("vxFSRemoveTemp: environment-model function, not available in native replay")
 }
 
+func vxFSRemoveTempDirsOnly() {
+	panic("vxFSRemoveTempDirsOnly: environment-model function, not available in native replay")
+}
+
 func vxEvCount() int {
 	panic("vxEvCount: environment-model function, not available in native replay")
 }
